@@ -7,6 +7,7 @@ package main
 import (
 	"bytes"
 	"fmt"
+	"time"
 )
 
 type ckCase struct {
@@ -175,6 +176,7 @@ func init() {
 		c02ctx = c
 		c.Rule("seed streams {NONE/NONE, LZ/HUFFMAN, BWT+RANK+ZRLT/ANS0, TEXT/TPAQ} x checksum {32,64} x 3-5 blocks x reader jobs {1,2,3}; for every block: EVERY single-bit flip of every payload bit; every payload byte replaced by each of {0x00,0xFF,x+1,x^0x80}; every swap of adjacent payload bytes; every pair of flips within a 16-bit window over the first 128 payload bits; every splice (block i decoded from block j's data under block i's stored checksum = 'damaged inside the pipeline'). Oracle on everything Read returns until EOF or 4 calls after the first error: it is a prefix of the original, and without an error it is the whole original. One evaluation = one mutated stream decoded; positions come from the independent container parser (self-checked on each seed)")
 		c.Assume("a mutation that happens to produce a different block with the same 32/64-bit checksum would be a true violation of the statement (probability 2^-32 per case)")
+		famCk.Timeout = 90 * time.Minute // one case = every mutation of one class in one block (up to ~2*10^4 decodes)
 		famCk.Each(c, 0, func(emit func(ckCase)) {
 			type seed struct {
 				t, e, shape string
@@ -190,7 +192,7 @@ func init() {
 				{"LZ", "HUFFMAN", "text", 1024, 2*1024 + 11}, // last block <= 15 bytes: stored in copy mode
 			}
 			if c.Thorough() {
-				seeds = append(seeds, seed{"LZX", "FPAQ", "xml", 2048, 4*2048 + 100}, seed{"TEXT+UTF+BWT+SRT+ZRLT", "CM", "utf8-3", 2048, 2*2048 + 9}, seed{"RLT+LZP", "RANGE", "runs", 1024, 4*1024 + 100}, seed{"ROLZ", "ANS1", "dna", 1024, 3 * 1024})
+				seeds = append(seeds, seed{"LZX", "FPAQ", "xml", 2048, 4*2048 + 100}, seed{"TEXT+UTF+BWT+SRT+ZRLT", "CM", "utf8-3", 2048, 2*2048 + 9}, seed{"RLT+LZP", "RANGE", "runs", 1024, 4*1024 + 100}, seed{"ROLZ", "ANS1", "dna", 1024, 2*1024 + 50})
 			}
 			for _, sd := range seeds {
 				for _, ck := range []uint{32, 64} {
